@@ -142,6 +142,22 @@ Proof. exact expect_literal_live. Qed.
 Print Assumptions C04_literal_found_independent_of_fragmentation.
 
 
+(* (7) with a timeout, for every fragmentation and timing: expect(literal, T) returns iff the literal occurs among the
+       bytes that arrive strictly before the deadline; otherwise TimeoutError exactly at the deadline -- nothing else
+       can happen on a channel without death strings *)
+Theorem C04_literal_with_timeout_decided_by_what_arrives_in_time :
+  forall l T c,
+  wfc c -> deaths c = [] -> (0 < T)%Z -> l <> [] ->
+  let R := firstn (ready (Some (now (io c) + T)%Z) (pend (io c))) (cpend c) in
+  match expect [SLit l] (Some T) c with
+  | (Ret r, c') => contains l R = true /\ er_idx r = 0 /\ er_match r = l
+  | (ETimeout, c') => contains l R = false /\ now (io c') = (now (io c) + T)%Z
+  | _ => False
+  end.
+Proof. exact expect_literal_timed_iff. Qed.
+Print Assumptions C04_literal_with_timeout_decided_by_what_arrives_in_time.
+
+
 Theorem C04_example :
   let c := chan_init [(0%Z, [120; 97]%N); (0%Z, [98; 99; 121]%N); (0%Z, [122]%N)] [] in
   match fst (expect [SLit [98; 99]%N; SLit [97; 98]%N] None c) with
